@@ -147,6 +147,8 @@ type rt struct {
 	log       []string
 	trace     bool
 	nextObj   int
+	lastID    int
+	policy    int
 	resetters []func()
 }
 
@@ -364,11 +366,28 @@ func (op *Op) isEnabled() bool {
 // ended (deadlock, divergence).
 func (r *rt) pick(cur *Thread) *Thread {
 	for {
+		// canonical order of the alternatives: the running thread first if it
+		// is still enabled, then - policy 0 - ascending thread numbers
+		// (early threads have priority: a worker runs a whole remote
+		// operation before a later worker starts) or - policy 1 - round
+		// robin from the running thread's number (a thread created late is
+		// not starved while lower-numbered threads stay runnable). Both base
+		// schedules are explored: the policy is a free choice made at
+		// Explore().
 		var enabled []*Thread
+		pivot := r.lastID
+		if cur != nil {
+			pivot = cur.ID
+			r.lastID = cur.ID
+		}
+		if r.policy == 0 {
+			pivot = -1
+		}
 		if cur != nil && !cur.done && cur.op != nil && cur.op.isEnabled() {
 			enabled = append(enabled, cur)
 		}
-		for _, u := range r.threads {
+		for k := 1; k <= len(r.threads); k++ {
+			u := r.threads[(pivot+k+len(r.threads))%len(r.threads)]
 			if u == cur || u.done || u.op == nil {
 				continue
 			}
@@ -391,6 +410,13 @@ func (r *rt) pick(cur *Thread) *Thread {
 		}
 		if len(enabled) == 1 {
 			return enabled[0]
+		}
+		if r.trace && r.exploring {
+			names := ""
+			for i, u := range enabled {
+				names += fmt.Sprintf(" %d:%s[%s]", i, u.Name, u.op.Kind)
+			}
+			r.log = append(r.log, fmt.Sprintf("choice pos=%d alternatives:%s", r.pos, names))
 		}
 		c, ok := r.choose(len(enabled), "sched", false)
 		if !ok {
@@ -511,8 +537,9 @@ func Quiesce() {
 // Explore marks the end of the deterministic set-up phase: choice points are
 // recorded (and may deviate) only from here on.
 func Explore() {
-	if R != nil {
+	if R != nil && !R.exploring {
 		R.exploring = true
+		R.policy = ChooseFree(2, "base-schedule")
 	}
 }
 
